@@ -231,6 +231,7 @@ type TB struct {
 	cycleTo     int
 	loadID      map[ssa.Value]int
 	edgeSys     map[any]*dsys // bounds: constraint systems per CFG edge
+	inTrim      bool          // guards the fact lookup of trimIdiom/trimMerge against recursion
 	nextEpoch   int
 	depth       int
 	stack       []*ssa.Function
@@ -306,7 +307,9 @@ func (tb *TB) Term(v ssa.Value) *Term {
 		// holding a marker for v itself is a valid description of v, but embedded in the
 		// description of another value of the same cycle it would show up in place of the
 		// marker that value's own description has there, so it is not remembered either.)
-		tb.memo[v] = t
+		if !tb.inTrim { // terms built for the fact lookup of the trim idioms skip those idioms
+			tb.memo[v] = t
+		}
 	} else if inner < depth && inner < saved {
 		saved = inner
 	}
@@ -480,6 +483,9 @@ func (tb *TB) build(v ssa.Value) *Term {
 			// for i := 0; i < len(X); i++ is the range loop over X: i is (counter + 1) of a
 			// counter that starts at -1, exactly as go/ssa writes `for i := range X`
 			return mk("Bin", "+", nil, mk("RangeIdx", "", v), mk("Const", "1", nil))
+		}
+		if tr := tb.trimMerge(x); tr != nil {
+			return tr
 		}
 		t := mk("Phi", x.Comment, v)
 		seenPhi := map[*ssa.Phi]bool{x: true}
@@ -905,7 +911,110 @@ func (tb *TB) slice(x *ssa.Slice) *Term {
 	if x.Max != nil {
 		t.Args = append(t.Args, tb.Term(x.Max))
 	}
+	if tr := tb.trimIdiom(x, base, l, h); tr != nil {
+		return tr
+	}
 	return t
+}
+
+// trimIdiom: s[len(K):] behind strings.HasPrefix(s, K) is strings.TrimPrefix(s, K), and
+// s[:len(s)-len(K)] behind strings.HasSuffix(s, K) is strings.TrimSuffix(s, K).
+func (tb *TB) trimIdiom(x *ssa.Slice, base, l, h *Term) *Term {
+	if tb.inTrim || x.Max != nil {
+		return nil
+	}
+	if bt, ok := x.X.Type().Underlying().(*types.Basic); !ok || bt.Info()&types.IsString == 0 {
+		return nil
+	}
+	var fn string
+	var n int64
+	switch {
+	case l != nil && h == nil:
+		k, ok := intConst(l)
+		if !ok || k <= 0 {
+			return nil
+		}
+		fn, n = "strings.HasPrefix", k
+	case l == nil && h != nil:
+		sym, off := linear(h)
+		if sym != "len("+base.Key()+")" || off >= 0 {
+			return nil
+		}
+		fn, n = "strings.HasSuffix", -off
+	default:
+		return nil
+	}
+	tb.inTrim = true
+	facts := tb.FactsAt(x.Block())
+	tb.inTrim = false
+	for _, a := range facts {
+		if a.Kind != "call" || !a.Pol || a.Call == nil || a.Call.S != fn || len(a.Call.Args) != 2 || a.Call.Args[0].Key() != base.Key() {
+			continue
+		}
+		k := a.Call.Args[1]
+		if k.Op != "Const" {
+			continue
+		}
+		lit, err := strconv.Unquote(k.S)
+		if err != nil || int64(len(lit)) != n {
+			continue
+		}
+		name := "strings.TrimPrefix"
+		if fn == "strings.HasSuffix" {
+			name = "strings.TrimSuffix"
+		}
+		return mk("Call", name, x, base, k)
+	}
+	return nil
+}
+
+// trimMerge: Phi(strings.TrimSuffix(s, K), s) where the untrimmed value arrives only when s
+// does not end in K (`if strings.HasSuffix(s, K) { s = s[:len(s)-len(K)] }`) is
+// strings.TrimSuffix(s, K); likewise for prefixes.
+func (tb *TB) trimMerge(ph *ssa.Phi) *Term {
+	if len(ph.Edges) != 2 || tb.inTrim {
+		return nil
+	}
+	if bt, ok := ph.Type().Underlying().(*types.Basic); !ok || bt.Info()&types.IsString == 0 {
+		return nil
+	}
+	for i := 0; i < 2; i++ {
+		tr := tb.Term(ph.Edges[i])
+		if tr.Op != "Call" || (tr.S != "strings.TrimSuffix" && tr.S != "strings.TrimPrefix") || len(tr.Args) != 2 {
+			continue
+		}
+		other := tb.Term(ph.Edges[1-i])
+		if other.Key() != tr.Args[0].Key() {
+			continue
+		}
+		has := "strings.HasSuffix"
+		if tr.S == "strings.TrimPrefix" {
+			has = "strings.HasPrefix"
+		}
+		// the untrimmed edge must come from where the test failed
+		pred := ph.Block().Preds[1-i]
+		k := 0
+		for j, su := range pred.Succs {
+			if su == ph.Block() {
+				k = j
+			}
+		}
+		tb.inTrim = true
+		var facts []Atom
+		if _, isIf := pred.Instrs[len(pred.Instrs)-1].(*ssa.If); isIf {
+			facts = tb.FactsOnEdge(pred, k)
+		} else {
+			facts = tb.FactsAt(pred)
+		}
+		tb.inTrim = false
+		for _, a := range facts {
+			if a.Kind == "call" && !a.Pol && a.Call != nil && a.Call.S == has && len(a.Call.Args) == 2 &&
+				a.Call.Args[0].Key() == tr.Args[0].Key() && a.Call.Args[1].Key() == tr.Args[1].Key() {
+				return tr
+			}
+		}
+	}
+	return nil
 }
 
 // sliceLit recognises an array alloc all of whose uses are constant-index
